@@ -20,7 +20,8 @@ def run(ctx, config="all"):
                  "(to_bits) through no rounding float operation (+ - * / on floats; comparisons, %, abs, casts f32->f64 "
                  "are exact); NotANumber is produced exactly on the is_nan edge, which dominates every float comparison; "
                  "ValueNegative exactly on the `value < 0.0` edge. Uint->float: reads the value through "
-                 "most_significant_bits, one int->float cast of the mantissa and one multiplication by exp2(exponent)")
+                 "at most one inexact step (rounding cast, narrowing cast, float + - /, * by anything but an "
+                 "exponent-only factor, nested conversion) on the path to the result")
     prog = ctx.prog(config)
     b = prog.bodies.get(F64)
     if b is None:
@@ -110,53 +111,95 @@ def run(ctx, config="all"):
         else:
             rep.violation("try_from_f32", "%s:%s" % (b32["file"], b32["line"]), "TryFrom<f32> is not the exact widening "
                           "forward to TryFrom<f64>: calls %s, casts %s, ops %s" % (calls, casts, binops))
-    # Uint -> float: (top 64 bits as float) * (a factor derived from the exponent only), one multiplication,
-    # no other rounding float operation in the body.  How the power of two is produced (libm exp2, bit pattern,
-    # table) is not prescribed -- its value is arithmetic and not decided.
+    # Uint -> float: at most ONE inexact step between the integer and the returned float.  Inexact steps: an
+    # int->float cast of a value that may exceed the mantissa, a narrowing float->float cast, a float + - /,
+    # a float * unless one side is a factor derived from the exponent alone (a power of two: exact), and a call of
+    # another Uint->float conversion (which contains its own).  Two inexact steps round twice (not a neighbour of
+    # the exact value in general, wrong at the overflow edge).  How the power of two is produced (libm exp2, bit
+    # pattern, table) is not prescribed -- its value is arithmetic and not decided.
     for k, nm in ((TO_F64, "f64"), (TO_F32, "f32")):
         bb = prog.bodies.get(k)
         if bb is None:
             continue
         vv = prog.view(bb, (65, 2))
         wh = "%s:%s" % (bb["file"], bb["line"])
-        msb = [(bi, t) for bi, t in vv.calls() if (ir.callee_name(t["fn"]) or "").endswith("::most_significant_bits")]
-        fops = []
-        for bi in sorted(vv.reachable):
-            for s in vv.blocks[bi]["stmts"]:
-                if s["s"] == "assign" and s["rv"]["r"] == "bin" and not s["pl"]["p"] and is_float_local(vv, s["pl"]["l"]):
-                    fops.append((s["rv"]["op"], s))
-        muls = [s for op, s in fops if op == "Mul"]
-        others = sorted(op for op, _s in fops if op in ROUNDING and op != "Mul")
-        if len(msb) != 1 or len(muls) != 1 or others:
-            rep.violation("to_%s" % nm, wh, "Uint->%s is not (top 64 bits as float) * factor(exponent) with a single rounding "
-                          "multiplication: %d most_significant_bits calls, %d multiplications, other rounding ops %s" % (
-                              nm, len(msb), len(muls), others))
-            continue
-        d = msb[0][1]["dest"]["l"]
+        msb_dest = {t["dest"]["l"] for bi, t in vv.calls()
+                    if (ir.callee_name(t["fn"]) or "").endswith("::most_significant_bits")}
 
-        def fields_used(op):
-            used, seen, st = set(), set(), [op]
-            while st:
-                o = st.pop()
+        def slice_of(op):
+            """(locals in the backward slice, msb fields read, statements/calls in the slice)"""
+            used, seen, items, stk = set(), set(), [], [op]
+            while stk:
+                o = stk.pop()
                 if o.get("o") not in ("copy", "move"):
                     continue
-                if o["l"] == d and o["p"] and o["p"][0][0] == "f":
+                if o["l"] in msb_dest and o["p"] and o["p"][0][0] == "f":
                     used.add(o["p"][0][1])
                     continue
                 if o["l"] in seen or vv.is_arg(o["l"]):
                     continue
                 seen.add(o["l"])
                 for bi, si, x in vv.defs.get(o["l"], []):
+                    if bi not in vv.reachable:
+                        continue
+                    items.append((bi, si, x))
                     if si == "term":
-                        st.extend(x["args"])
+                        stk.extend(x["args"])
                     elif x.get("rv"):
-                        st.extend(ir.operands_of_rvalue(x["rv"]))
-            return used
-        fa, fb = fields_used(muls[0]["rv"]["a"]), fields_used(muls[0]["rv"]["b"])
-        if {frozenset(fa), frozenset(fb)} == {frozenset({0}), frozenset({1})}:
-            rep.ok("to_%s" % nm, wh, "(bits as %s) * factor(exponent)" % nm)
+                        stk.extend(ir.operands_of_rvalue(x["rv"]))
+                        if x["rv"]["r"] in ("ref", "discr"):
+                            stk.append({"o": "copy", "l": x["rv"]["pl"]["l"], "p": x["rv"]["pl"]["p"]})
+            return seen, used, items
+
+        _seen, _used, items = slice_of({"o": "copy", "l": 0, "p": []})
+        exempt = set()    # locals on the exponent-only side of a multiplication
+        steps = []
+        mant_bits = {"f64": 53, "f32": 24}
+        for bi, si, x in items:
+            if si == "term":
+                cn = ir.callee_name(x["fn"]) or ""
+                if cn in (TO_F64, TO_F32) or cn in (TO_F64.replace("&", ""), TO_F32.replace("&", "")) or \
+                        ("core::convert::From<" in cn and "Uint<BITS, LIMBS>> for f" in cn):
+                    steps.append(("call of another Uint->float conversion", vv.where(bi), x["dest"]["l"]))
+                continue
+            rv = x.get("rv") or {}
+            dl = x["pl"]["l"]
+            if rv.get("r") == "bin" and is_float_local(vv, dl) and rv["op"] in ROUNDING:
+                if rv["op"] == "Mul":
+                    sa, sb = slice_of(rv["a"]), slice_of(rv["b"])
+                    side = None
+                    if sa[1] == {1}:
+                        side = sa
+                    elif sb[1] == {1}:
+                        side = sb
+                    if side is not None:
+                        exempt |= side[0]
+                        continue
+                steps.append(("float %s" % rv["op"], vv.where(bi), dl))
+            elif rv.get("r") == "cast" and rv["kind"] == "IntToFloat":
+                src_t = None
+                a = rv["a"]
+                if a.get("o") in ("copy", "move") and not a["p"]:
+                    src_t = vv.local_tyname(a["l"])
+                bits = ir.INT_BITS.get(src_t, 128)
+                tn = vv.local_tyname(dl)
+                if bits > mant_bits.get(tn, 24):
+                    steps.append(("%s as %s" % (src_t, tn), vv.where(bi), dl))
+            elif rv.get("r") == "cast" and rv["kind"] == "FloatToFloat":
+                a = rv["a"]
+                st_ = vv.local_tyname(a["l"]) if a.get("o") in ("copy", "move") and not a["p"] else None
+                if st_ == "f64" and vv.local_tyname(dl) == "f32":
+                    steps.append(("f64 as f32", vv.where(bi), dl))
+        steps = [s_ for s_ in steps if s_[2] not in exempt]
+        if len(steps) > 1:
+            rep.violation("to_%s" % nm, wh, "Uint->%s rounds more than once on the way to its result: %s; the result is then "
+                          "not always a neighbour of the exact value (double rounding, e.g. at the overflow edge)" % (
+                              nm, "; ".join("%s at %s" % (a_, w_) for a_, w_, _l in steps)))
+        elif not steps and not msb_dest:
+            rep.violation("to_%s" % nm, wh, "Uint->%s: no int->float step found on the path to the result (rule cannot be "
+                          "applied)" % nm)
         else:
-            rep.violation("to_%s" % nm, wh, "the multiplication's operands derive from fields %s and %s of most_significant_bits() "
-                          "(expected the mantissa on one side and the exponent on the other)" % (sorted(fa), sorted(fb)))
+            rep.ok("to_%s" % nm, wh, "one inexact step on the path to the result: %s" % (
+                "; ".join("%s at %s" % (a_, w_) for a_, w_, _l in steps) or "none"))
     rep.analysed["build_config"] = config
     return rep
